@@ -39,7 +39,7 @@ META = {
                   "64-bit boundary set incl. -2^63.  FoamCodec.tla: every field kind x {0,1,2,3,254,255,256,257,65535,65536} "
                   "(about 960 nodes), every admissible format is read back by the tree, header and skipping reader; the real "
                   "foamToBuffer / foamFrBuffer / foamGetProgHdrFrBuffer / foamConstvFrBuffer are driven through the same nodes "
-                  "and TLC decodes the real bytes; 12 kinds of generated units reach indices 255..260 (locals, parameters, "
+                  "and TLC decodes the real bytes; 12 kinds of generated units (11 in the quick tier) reach indices 255..260 (locals, parameters, "
                   "globals, constants, lexicals, record fields, formats, labels, strings, names, big integers) and go through "
                   ".ao / .al like every other program (TLC checks that every field kind it enumerates was reached).  "
                   "SefoCodec.tla: 87 type sections over identifier / integer / float / string leaves, applications, "
@@ -407,7 +407,9 @@ def wide_family(chk, quick):
     """The units that drive indices and counts beyond one byte: abstract programs (expected output from AldorSem.tla) and
     text units (equality between arrangements only)."""
     n = 258 + (chk.seed % 5)
-    progs = [(k, wideunits.ABSTRACT[k](n, "wide_%s" % k)) for k in WIDE_ABSTRACT]
+    # the 260-field record costs 16 s of type inference per compilation: thorough tier only (the last index of RElt beyond
+    # 255 is then reached by the node family of the codec replay only; its first index by the unit `fmt')
+    progs = [(k, wideunits.ABSTRACT[k](n, "wide_%s" % k)) for k in WIDE_ABSTRACT if not (quick and k == "rec")]
     texts = [(k, "wide_%s" % k, wideunits.TEXT[k](n)) for k in WIDE_TEXT]
     return n, progs, texts
 
@@ -691,7 +693,7 @@ def run(chk, tier):
     # ---- perform ----
     with concurrent.futures.ThreadPoolExecutor(max_workers=vlib.NCPU) as ex:
         # the wide units first: their commands are the longest (the 260-field record needs 10 s and more per command)
-        first = [j for j in jobs if j.wide == "rec"] + [j for j in jobs if j.wide is not None and j.wide != "rec"]
+        first = [j for j in jobs if j.wide == "rec"] + [j for j in jobs if j.wide is not None and j.wide != "rec"]       # rec: thorough only
         futs = [ex.submit(j.perform_level, q) for j in first + [j for j in jobs if j.wide is None] for q in LEVELS]
         sfuts = [(j, k, ex.submit(j.perform_split, k)) for j in jobs for k in range(len(j.splits))]
         for f in futs:
@@ -915,7 +917,7 @@ def run(chk, tier):
                 "programs with extreme constants + corpus programs so that every path is performed; splits exported by TLC (subset of 3 "
                 "movable definitions x ao/al x levels x route); a case is (program, level, chain, final) or (program, split); "
                 "non-trivial = goes through at least one saved form.  Codec classes: the node family of FoamCodec.tla (field kind x "
-                "boundary value; a case per node, non-trivial = a format other than one byte is admissible); 12 kinds of units "
+                "boundary value; a case per node, non-trivial = a format other than one byte is admissible); 12 kinds of units (quick: 11, without the 260-field record) "
                 "with 258..262 items reaching every field kind TLC lists (Need / Reach / GAP accounting in TraceUnits.tla); "
                 "type-expression shapes exported by SefoCodec.tla dealt into library + client programs")
     chk.exhaustive = not quick
